@@ -51,6 +51,21 @@ def namespaces():
     return fw, ut
 
 
+class InjectedFault(Exception):
+    """a user-supplied callable (field function of a CustomSource, pixel aggregator) raises"""
+
+    modelled = True
+
+
+class InjectedInterrupt(BaseException):
+    """... or is interrupted (KeyboardInterrupt-like: not an Exception)"""
+
+    modelled = True
+
+
+FAULT = {"at": None, "cls": InjectedFault}  # ("ff", group name) | ("agg",) | None
+
+
 class Agg:
     """uninterpreted pixel aggregator: records (argument, axis); the result is an opaque function of the remaining indices"""
 
@@ -60,6 +75,8 @@ class Agg:
         self.name = name
 
     def __call__(self, arr, axis=None):
+        if FAULT["at"] == ("agg",):
+            raise FAULT["cls"]("the pixel aggregator raises")
         arr = S.as_sa(arr)
         axes = (axis,) if isinstance(axis, int) else tuple(axis)
         axes = tuple(a + arr.ndim if a < 0 else a for a in axes)
@@ -110,6 +127,8 @@ def make_ff(gname, prop_names):
     F = {}
 
     def ff(field, observers, **props):
+        if FAULT["at"] == ("ff", gname):
+            raise FAULT["cls"](f"the field function of group {gname} raises")
         f = F.setdefault(field, z3.Function(f"F_{gname}_{field}", Vec, *([S.Prop] * len(prop_names)), Vec))
         obs = S.as_sa(observers)
         cur = S.SA(obs.dims, (3,), "tmp", (lambda env, e=S.fz(obs): (e(env),)), obs.pending)
@@ -240,8 +259,9 @@ def in_sensor_frame(sens, m, v):
     return S.flipx(out) if sens.handedness == "left" else out
 
 
-def run_structure(rep, fnl, spec, field="B", sumup=False, squeeze=False, pixel_agg=None, tag=""):
-    """explores the real getBH_level2 on one structure; returns list of failure dicts"""
+def run_structure(rep, fnl, spec, field="B", sumup=False, squeeze=False, pixel_agg=None, tag="", fault=None):
+    """explores the real getBH_level2 on one structure; returns list of failure dicts.
+    fault: ("ff", group) | ("agg",): that user-supplied callable raises; then only 'the injected exception propagates' and 'all paths restored' are obligations"""
     fw, _ = namespaces()
     fails = []
     state = {}
@@ -253,9 +273,16 @@ def run_structure(rep, fnl, spec, field="B", sumup=False, squeeze=False, pixel_a
         c.axioms.extend(S.base_axioms())
         Agg.calls = []
         state.update(sources=sources, sensors=sensors, objs=objs)
-        with warnings.catch_warnings():
-            warnings.simplefilter("ignore")
-            out = fw["getBH_level2"](sources, sensors, field=field, sumup=sumup, squeeze=squeeze, pixel_agg=pixel_agg, output="ndarray", in_out="auto")
+        FAULT["at"] = tuple(fault[:2]) if fault and fault[0] == "ff" else (("agg",) if fault else None)
+        FAULT["cls"] = InjectedInterrupt if fault and fault[-1] == "interrupt" else InjectedFault
+        try:
+            with warnings.catch_warnings():
+                warnings.simplefilter("ignore")
+                out = fw["getBH_level2"](sources, sensors, field=field, sumup=sumup, squeeze=squeeze, pixel_agg=pixel_agg, output="ndarray", in_out="auto")
+        except (InjectedFault, InjectedInterrupt):
+            return "raised", list(Agg.calls)
+        finally:
+            FAULT["at"] = None
         return out, list(Agg.calls)
 
     npth = 0
@@ -312,7 +339,13 @@ def run_structure(rep, fnl, spec, field="B", sumup=False, squeeze=False, pixel_a
             envq = {a.id: i for a in ori.q.atoms()}
             goal = z3.And(S.dim_size(pos.dims[0]).z3() == so.n.z3(), S.dim_size(ori.q.dims[0]).z3() == so.n.z3(),
                           z3.Implies(z3.And(0 <= i, i < so.n.z3()), z3.And(pos.elem(envp) == so.P(i), ori.q.elem(envq) == so.Q(i))))
-            prove(f"{base}.paths-restored[{so.name}](length-and-every-entry)", [], goal, "frame")
+            prove(f"{base}.paths-restored[{so.name}](length-and-every-entry)" + ("-after-the-injected-exception" if fault else ""), [], goal, "frame")
+        if fault:
+            okf = isinstance(out, str) and out == "raised"
+            rep.obligation(base + ".injected-exception-propagates-to-the-caller", {"status": "discharged" if okf else "refuted", "backend": "symex", "time_s": 0}, fnl, "exceptional")
+            if not okf:
+                fails.append(dict(name=base + ".injected-exception-propagates", why="the exception raised by the user-supplied callable was swallowed"))
+            continue
         # --- shape of the output
         L = 1 if sumup else len(sources)
         Sn = len(sensors)
@@ -527,6 +560,21 @@ def report_fails(rep, fails):
         sp = _standin_spec(f["spec"])
         kw = dict(field=f["field"], sumup=f["sumup"], pixel_agg=f["pixel_agg"])
         msgs = None
+        if f.get("fault"):
+            # a fault-injection obligation: replay through the public API with a field function / aggregator that raises (checks/c08.py)
+            from checks.c08 import REPLAY_NATIVE, native_faults
+
+            try:
+                _, bad = native_faults(0)
+            except Exception as e:  # pylint: disable=broad-except
+                bad = ["a later call on the same objects raised " + repr(e)]
+            payload = {"why": f["why"], "structure": f["spec"], "call": kw, "fault": list(f["fault"]), "solver_output": f.get("why", "")}
+            if bad:
+                payload.update(native_result=bad[:4], script=REPLAY_NATIVE.format(seed=0))
+                rep.violation(f["name"], payload)
+            else:
+                rep.violation(f["name"], payload, found_input=False)
+            continue
         try:
             spec2 = dict(sources=level2._detuple(sp["sources"]), sensors=[tuple(x[:3]) + (tuple(x[3]) if x[3] else None, x[4]) for x in sp["sensors"]])
             sources, sensors = level2.build(spec2)
@@ -541,7 +589,15 @@ def report_fails(rep, fails):
             rep.violation(f["name"], payload, found_input=False)
 
 
-def jobs_for(tier, fams, stride=None):
+def _groups(entries):
+    for e in entries:
+        if e[0] == "c":
+            yield from _groups(e[1])
+        else:
+            yield e[3]
+
+
+def jobs_for(tier, fams, stride=None, faults=False):
     jobs = []
     for fam, spec in structures(tier):
         for (field, sumup, squeeze, agg) in variants(fam, spec, tier):
@@ -549,7 +605,21 @@ def jobs_for(tier, fams, stride=None):
     for fam, spec in mixed_pixel_structures(tier):
         jobs.append((fam, spec, "B", False, False, "mean"))
         jobs.append((fam, spec, "B", True, True, "mean"))
-    jobs = [j for j in jobs if fams is None or j[0] in fams]
+    jobs = [j + (None,) for j in jobs if fams is None or j[0] in fams]
+    if faults:
+        extra = []
+        for j in jobs:
+            fam, spec, field, sumup, squeeze, agg, _ = j
+            if sumup or squeeze or field != "B":
+                continue
+            groups = sorted({g for g in _groups(spec["sources"])})
+            for g in groups:
+                extra.append((fam, spec, field, sumup, squeeze, agg, ("ff", g, "exception")))
+                extra.append((fam, spec, field, sumup, squeeze, agg, ("ff", g, "interrupt")))
+            if agg:
+                extra.append((fam, spec, field, sumup, squeeze, agg, ("agg", "exception")))
+                extra.append((fam, spec, field, sumup, squeeze, agg, ("agg", "interrupt")))
+        jobs = jobs + extra
     if tier == "quick" and stride:
         keep = []
         cnt = {}
@@ -562,7 +632,7 @@ def jobs_for(tier, fams, stride=None):
     return jobs
 
 
-def run(rep, tier, fams=None, stride=None):
+def run(rep, tier, fams=None, stride=None, faults=False):
     """obligations of the level-2 evaluation for the structure families `fams`; returns failures (see report_fails)"""
     import magpylib._src.fields.field_wrap_BH as FW
     import magpylib._src.input_checks as IC
@@ -579,22 +649,22 @@ def run(rep, tier, fams=None, stride=None):
     rep.assume("level-2 obligations (checks/l2sym.py) hold for every path length M >= 1, every shorter path length 1 <= n < M, every pixel count K >= 1, all "
                "positions / orientations / field functions; the STRUCTURE (numbers of sources, collections, sensors; nesting; groups) is enumerated: "
                "<= 4 top-level sources, <= 3 leaves per collection, nesting depth 2, <= 3 sensors; pixel arrays of rank <= 2 ((K,3), (3,), None)")
-    jobs = jobs_for(tier, fams, stride)
+    jobs = jobs_for(tier, fams, stride, faults)
     if not jobs:
         raise RuntimeError("vacuity: no level-2 structure selected")
     tasks = []
-    for i, (fam, spec, field, sumup, squeeze, agg) in enumerate(jobs):
-        tag = f"{fam}{i}:{field}{',sumup' if sumup else ''}{',squeeze' if squeeze else ''}{',agg=' + agg if agg else ''}"
+    for i, (fam, spec, field, sumup, squeeze, agg, fault) in enumerate(jobs):
+        tag = f"{fam}{i}:{field}{',sumup' if sumup else ''}{',squeeze' if squeeze else ''}{',agg=' + agg if agg else ''}{',fault=' + '/'.join(fault) if fault else ''}"
 
-        def task(sub, spec=spec, field=field, sumup=sumup, squeeze=squeeze, agg=agg, tag=tag):
+        def task(sub, spec=spec, field=field, sumup=sumup, squeeze=squeeze, agg=agg, tag=tag, fault=fault):
             old = solve.RECHECK_EVERY
             solve.RECHECK_EVERY = 40  # thorough tier: cvc5 second opinion on every 40th of these (many, similar) VCs
             try:
-                fl = run_structure(sub, fnl, spec, field, sumup, squeeze, agg, tag=tag)
+                fl = run_structure(sub, fnl, spec, field, sumup, squeeze, agg, tag=tag, fault=fault)
             finally:
                 solve.RECHECK_EVERY = old
             for f in fl:
-                f.update(spec=spec, field=field, sumup=sumup, pixel_agg=agg, tag=tag)
+                f.update(spec=spec, field=field, sumup=sumup, pixel_agg=agg, tag=tag, fault=fault)
             return fl
 
         tasks.append((tag, task))
